@@ -212,6 +212,20 @@ func genC17(r *Rng, tier string, emit func(Case)) {
 			}
 		}
 	}
+	// amounts that are multiples of a power of two (2^31, 2^32, 2^40 satoshi: where a 32-bit intermediate wraps to a
+	// round value) in the large units and at the ends of the exponent range
+	for _, sh := range []uint{31, 32, 33, 40, 50} {
+		for _, m := range []int64{1, 3, 5, -1, -7, 977} {
+			a := m << sh
+			if a > 2100000000000000 || a < -2100000000000000 {
+				continue
+			}
+			for _, u := range []int{-12, -9, -8, 0, 1, 2, 3, 6, 9, 10, 11, 12} {
+				e("tounit", "pow2", i64s(a), itoa(u))
+				e("fmt", "pow2", i64s(a), itoa(u))
+			}
+		}
+	}
 	// MulF64 with whole multipliers of every magnitude (and their neighbours), small amounts so that the product is
 	// far from the int64 range
 	for _, w := range []float64{0, 1, 2, 3, 255, 256, 65535, 65536, 1<<31 - 1, 1 << 31, 1<<31 + 1, 3e9, 1<<32 - 1, 1 << 32, 1<<32 + 1, 1 << 53, 1e15} {
